@@ -642,9 +642,10 @@ fn run_fl(cx: &mut Ctx, size: usize, slots: usize, progs: &[Vec<Op>], sched: &[u
     let mut free: Option<Vec<u64>> = None;
     let mut inspect = |o: &RunOut| -> Vec<(Option<String>, String)> {
         let mut f = vec![];
-        let (head, count) = c2.pool.verif_bin_state(size).unwrap_or((u32::MAX, 0));
+        let (packed, count) = c2.pool.verif_bin_state(size).unwrap_or((u32::MAX as u64, 0));
+        let head = packed & 0xFFFF_FFFF;
         let used = c2.pool.stats().used_memory as u64;
-        fin = [head as u64, count as u64, used];
+        fin = [packed, count as u64, used];
         let owned: BTreeSet<u64> = o.held.iter().flatten().cloned().collect();
         let link = |x: u64| c2.pool.verif_read_link(x as u32).map(|v| v as u64);
         match walk_free(head as u64, u32::MAX as u64, &link, &o.ever, &owned, o.ever.len()) {
@@ -689,8 +690,8 @@ fn run_fc(cx: &mut Ctx, size: usize, slots: usize, progs: &[Vec<Op>], sched: &[u
         let link = |x: u64| c2.pool.verif_read_link(x as u32).map(|v| v as u64);
         let mut free_all: Vec<u64> = vec![];
         for ci in 0..c2.pool.verif_num_classes() {
-            let (head, count) = c2.pool.verif_class_state(ci).unwrap_or((u32::MAX, 0));
-            match walk_free(head as u64, u32::MAX as u64, &link, &all, &owned, total) {
+            let (packed, count) = c2.pool.verif_class_state(ci).unwrap_or((u32::MAX as u64, 0));
+            match walk_free(packed & 0xFFFF_FFFF, u32::MAX as u64, &link, &all, &owned, total) {
                 Ok(l) => {
                     if l.len() as u64 != count as u64 { f.push((None, format!("class {} count = {} but its free list has {} blocks at quiescence", ci, count, l.len()))); }
                     free_all.extend(l);
@@ -1097,7 +1098,7 @@ fn stress_fl(nthr: usize, iters: usize, seed: u64, size: usize, hold: usize, whi
     if let Err(e) = r { f.push(e); }
     if own.clash.load(Ordering::SeqCst) { f.push(own.detail.lock().unwrap().clone()); }
     let (state, used, frag) = match &*pool {
-        Fl::L(p) => (p.verif_bin_state(size), p.stats().used_memory, p.stats().fragment_size),
+        Fl::L(p) => (p.verif_bin_state(size).map(|(h, c)| ((h & 0xFFFF_FFFF) as u32, c)), p.stats().used_memory, p.stats().fragment_size),
         Fl::M(p) => (p.verif_bin_state(size), p.stats().used_memory, p.stats().fragment_size),
         Fl::T(_) => (None, 0, 0),
     };
@@ -1154,8 +1155,8 @@ fn stress_fc(nthr: usize, iters: usize, seed: u64, size: usize, hold: usize) -> 
     let mut nfree = 0usize;
     let mut seen = BTreeSet::new();
     for ci in 0..pool.verif_num_classes() {
-        let (head, count) = pool.verif_class_state(ci).unwrap_or((u32::MAX, 0));
-        match walk_free(head as u64, u32::MAX as u64, &link, &all, &BTreeSet::new(), total) {
+        let (packed, count) = pool.verif_class_state(ci).unwrap_or((u32::MAX as u64, 0));
+        match walk_free(packed & 0xFFFF_FFFF, u32::MAX as u64, &link, &all, &BTreeSet::new(), total) {
             Ok(l) => {
                 if l.len() as u64 != count as u64 { f.push(format!("class {} count = {} but its free list has {} blocks", ci, count, l.len())); }
                 for b in &l { if !seen.insert(*b) { f.push(format!("block {} is on two free lists", b)); } }
